@@ -747,6 +747,32 @@ pub fn directed() -> Vec<Doc> {
             }
         }
     }
+    // three fields of one file-block header damaged consistently: the block claims a large
+    // deflate stream and the largest expansion such a stream can have, while its header size says
+    // that (nearly) all of the padded block is header, so that almost nothing of the stream has
+    // to be present. Memory has to follow the bytes that are there, not the claim.
+    for hs in enc.fields.iter().filter(|f| f.name.ends_with("fblock.header_size")) {
+        let pre = &hs.name[..hs.name.len() - "header_size".len()];
+        let find = |n: &str| enc.fields.iter().find(|f| f.off > hs.off && f.off <= hs.off + 12 && f.name == format!("{}{}", pre, n));
+        let (Some(sl), Some(rl)) = (find("stored_len"), find("raw_len")) else { continue };
+        for stored in [31_999u64, 16_000, 4_000] {
+            let padded = (stored + 143) & !127;
+            for raw in [stored * 1032, stored * 1000, 30_000_000u64.min(stored * 1032)] {
+                for left in [0u64, 1, 2, 5, 16, 112, 128] {
+                    let fld = |f: &Field, v: u64| (0usize, Damage::Field { name: f.name.clone(), off: f.off, width: f.width, be: f.be, value: v });
+                    push(
+                        C17Doc::Patch {
+                            base: small.clone(),
+                            damage: vec![fld(hs, padded - left), fld(sl, stored), fld(rl, raw)],
+                            missing: None,
+                            obstruct: vec![],
+                        },
+                        &mut out,
+                    );
+                }
+            }
+        }
+    }
     push(C17Doc::Patch { base: small.clone(), damage: vec![], missing: None, obstruct: vec!["mk/a".into()] }, &mut out);
     push(C17Doc::Patch { base: small.clone(), damage: vec![], missing: None, obstruct: vec!["mk".into()] }, &mut out);
     push(C17Doc::Patch { base: small.clone(), damage: vec![], missing: None, obstruct: vec!["boot".into()] }, &mut out);
